@@ -73,7 +73,7 @@ def run(ctx, rep):
     # ---- R5.1 seven entries ------------------------------------------------------
     ks = sorted(c.values)
     rep.ob('R5.1', 'conventional-keys', ks == sorted(SIX), f'conventional map keys: {ks}')
-    pa = W.get(ctx)
+    pa = W.get(ctx, rep)
     bad = [w for w in pa.worlds if not w.final or sorted(w.final) != sorted(SIX)]
     rep.ob('R5.1', 'policy-layer-keys', not bad, f'{len(pa.worlds) - len(bad)}/{len(pa.worlds)} worlds end with exactly the six keys',
            world=bad[0].describe() if bad else None)
@@ -119,4 +119,8 @@ def run(ctx, rep):
     # shared mechanism: the clock-time conversion wraps into [0, 24) after the offset and cannot fail (R11.4, R11.7)
     from . import shared, c11 as _c11
     shared.include(ctx, rep, _c11.run, {'R11.4', 'R11.7'}, why='every reported hour becomes a valid clock time')
+    # the interval definitions (Isha = Maghrib + intervals[Isha]/60, ...) are what makes the schedule of an interval method
+    # complete and ordered under policy None
+    from . import c12 as _c12
+    shared.include(ctx, rep, _c12.run, {'R12.2'}, floors=True, why='interval-defined times exist and follow their base time')
 
